@@ -128,8 +128,8 @@ ALTS = {
         "bits": [5], "integer": [2], "symmetric": [1], "alpha": [F(2)],
         "use_stochastic_rounding": [True],
         "scale_axis": [(0, dict(alpha="auto"))], "qnoise_factor": [F(1, 2)],
-        "var_name": ["v"], "use_variables": [True], "relu_shift": [2],
-        "relu_upper_bound": [4]}),
+        "var_name": ["v"], "use_variables": [True],
+        "relu_shift": [2, F(5, 2)], "relu_upper_bound": [4, F(11, 2)]}),
 }
 
 
@@ -384,6 +384,13 @@ def roundtrip_after_change(rep, repo, mod, cls, kw):
         pe.getattr(q, "update_qnoise_factor"), [F(1, 4)], {})))
     changes.append(("update_qnoise_factor(0)", lambda pe, q: pe.call(
         pe.getattr(q, "update_qnoise_factor"), [F(0)], {})))
+  # use: a quantizer that has been called - on a tensor of another rank than
+  # the probe - is still described by its configuration (nothing the call
+  # left behind may steer later calls)
+  changes.append(("a call on a rank-3 tensor", lambda pe, q: pe.call(
+      q, [Tensor(("x",), (3, 5, 7))], {})))
+  changes.append(("a call on a rank-1 tensor", lambda pe, q: pe.call(
+      q, [Tensor(("x",), (5,))], {})))
   if "set_internal_sigmoid" in mod.functions:
     # the library's switch of its internal sigmoid (module state): the live
     # object and the one rebuilt afterwards must follow it alike
@@ -749,6 +756,8 @@ def run(rep, repo, tier):
     if "alpha" in params:
       nchanged += roundtrip_after_change(rep, repo, mod, cls,
                                          dict(base, alpha=None))
+      nchanged += roundtrip_after_change(rep, repo, mod, cls,
+                                         dict(base, alpha="auto"))
       if cls == "quantized_linear":
         nchanged += roundtrip_after_change(rep, repo, mod, cls,
                                            dict(base, alpha=F(3)))
